@@ -6,7 +6,7 @@ S=$1; P=$2; N=${3:-3000}; shift; shift; shift || true
 if [ ! -d /tmp/mt-repo ]; then git -C /repo worktree add --detach /tmp/mt-repo HEAD >/dev/null 2>&1; fi
 git -C /tmp/mt-repo checkout -q --detach $(git -C /repo rev-parse HEAD)
 git -C /tmp/mt-repo checkout -- . 
-if [ "$S" != none ]; then git -C /tmp/mt-repo apply --whitespace=nowarn /verif/seeded/$S/patch.diff; fi
+if [ -f "$S" ]; then git -C /tmp/mt-repo apply --whitespace=nowarn "$S"; elif [ "$S" != none ]; then git -C /tmp/mt-repo apply --whitespace=nowarn /verif/seeded/$S/patch.diff; fi
 mkdir -p /tmp/mt-verif
 rsync -a --delete --exclude '.git' --exclude 'harness/target*' --exclude evidence --exclude seeded /verif/ /tmp/mt-verif/
 sed -i 's|path = "/repo"|path = "/tmp/mt-repo"|' /tmp/mt-verif/harness/Cargo.toml
